@@ -5,7 +5,7 @@ use crate::error::{Error, ErrorKind};
 pub struct FuelTracker {
     // The initial fuel level.
     initial: u64,
-    remaining: isize,
+    remaining: u64,
 }
 
 impl FuelTracker {
@@ -14,7 +14,7 @@ impl FuelTracker {
     pub fn new(fuel: u64) -> FuelTracker {
         FuelTracker {
             initial: fuel,
-            remaining: fuel as isize,
+            remaining: fuel,
         }
     }
 
@@ -22,8 +22,8 @@ impl FuelTracker {
     pub fn track(&mut self, instr: &Instruction) -> Result<(), Error> {
         let fuel_to_consume = fuel_for_instruction(instr);
         if fuel_to_consume != 0 {
-            self.remaining -= fuel_to_consume;
-            if self.remaining <= 0 {
+            self.remaining = self.remaining.saturating_sub(fuel_to_consume);
+            if self.remaining == 0 {
                 return Err(Error::from(ErrorKind::OutOfFuel));
             }
         }
@@ -32,7 +32,7 @@ impl FuelTracker {
 
     /// Returns the remaining fuel.
     pub fn remaining(&self) -> u64 {
-        self.remaining as _
+        self.remaining
     }
 
     /// Returns the consumed fuel.
@@ -42,7 +42,7 @@ impl FuelTracker {
 }
 
 /// How much fuel does an instruction consume?
-fn fuel_for_instruction(instruction: &Instruction) -> isize {
+fn fuel_for_instruction(instruction: &Instruction) -> u64 {
     match instruction {
         Instruction::BeginCapture(_)
         | Instruction::PushLoop(_)
